@@ -3890,3 +3890,40 @@ def union_degree(r: R, chk, qual: str = "heavy.ImmutableKnotVector.__or__", rule
                func=qual, construct="union multiplicity ignores the degrees")
     chk.floor(rule, f"stores into the table of multiplicities in {qual}", n, 1)
     return n
+
+
+# ---------------------------------------------------------------------------------------------------------
+# INPLACE-MIX: what is computed from one operand is not updated in place with what is computed from the other
+def inplace_mix(r: R, chk, quals: List[str], rule="INPLACE-MIX", floor: int = 0):
+    """`x = f(A); x += g(B)`: numpy keeps the dtype of x and refuses the update when g(B) is of a wider kind (int points and float
+    points, float points and Fraction points): A + B raises where B + A works.  In the curve-curve arms of the operators an
+    in-place update never has its target rooted in one operand only and its value in the other only."""
+    n = 0
+    for q in quals:
+        ctx = r.root(q)
+        fi = ctx.fi
+
+        def roots(e):
+            v = ctx.val(e)
+            if v is None:
+                return set()
+            # the number type of an array of points / weights comes from the points / weights, not from the knot vectors
+            return {d[1] for d in v.all_dep() if d[0] == "PF" and d[1] in (0, 1) and ("ctrlpoints" in d[2] or "weights" in d[2])}
+
+        for a in ast.walk(fi.node):
+            if not (isinstance(a, ast.AugAssign) and isinstance(a.target, ast.Name)):
+                continue
+            # the target just before the update: its last plain assignment
+            d = reaching_assign(fi.node, a, a.target.id)
+            if d is None:
+                continue
+            rt, rv = roots(d.value), roots(a.value)
+            if not rt or not rv:
+                continue
+            n += 1
+            ok = not (len(rt) == 1 and len(rv) == 1 and rt != rv)
+            chk.ob(rule, f"{q}: `{seg(a, 50)}` does not force the number type of one operand on the other", ok, loc=r.loc(ctx, a),
+                   detail="" if ok else f"{q}: `{seg(d, 40)}` is computed from `{fi.params[next(iter(rt))]}` alone and then updated in place with `{seg(a.value, 40)}`, computed from `{fi.params[next(iter(rv))]}` alone: the array keeps the dtype of the first and numpy refuses a value of a wider kind (int points + float points, float points + Fraction points: UFuncTypeError) — A + B raises where B + A works",
+                   func=q, construct="in-place update across the two operands")
+    chk.floor(rule, "in-place updates in the curve-curve operators examined", n, floor)
+    return n
